@@ -128,6 +128,11 @@ def run_case(case, ctx):
     # under -T the files are written with their dimensions stored ascending (a NetCDF file that stores lead times in another
     # order gets other windows: the recorded C15 finding, not a case-set question)
     paths, cpath = gen.materialize(ds, d, None if opts.get("T") else random.Random(len(ds["inputs"][0]["cells"]) + 7 * len(ds["inputs"])))
+    if random.Random("sb|%d|%d|%s" % (len(ds["inputs"][0]["cells"]), len(ds["inputs"]), kind)).random() < 0.4:
+        # the same file name in different directories: every input (and the climatology) is still its own file
+        paths, cpath, moved = gen.same_basename(paths, cpath, d)
+        if moved:
+            ctx.count("cases_with_same_file_name_in_different_directories")
     F = len(ds["inputs"])
     fmts = "".join(i["fmt"][0] for i in ds["inputs"]) + ("+c" + ds["clim"]["fmt"][0] if ds["clim"] else "")
     ensemble_derived = kind == "ens"
